@@ -55,12 +55,15 @@ def _configs(tier):
         engine="sh", mols=["H2CO"], excited={"n_states": 2, "method": "cis"}, active_state=1, steps=4, eps=1e-7,
         out=dict(checkpoint_every=2, nonadiabatic=1),
     )  # fmt: skip
+    # thermostatted XL-BOMD: the resumed run must still be thermostatted (damp travels through the checkpoint)
+    c["xl_damped"] = CR.default_cfg(engine="xl_damped", k=3, steps=4, seed=4, damp=5.0, out=dict(checkpoint_every=2, xyz=0))
     if tier == "thorough":
         c["ksa"] = CR.default_cfg(engine="ksa", k=4, steps=6, seed=2, mols=["H2O"])
         for k in range(4, 10):
             c[f"xl{k}"] = CR.default_cfg(engine="xl", k=k, steps=k + 3, seed=1, out=dict(checkpoint_every=3))
         c["bomd_noreuse"] = CR.default_cfg(engine="bomd", reuse_P=False, mols=["H2O"], out=dict(checkpoint_every=3))
-        c["xl_damped"] = CR.default_cfg(engine="xl_damped", k=5, steps=7, seed=4, out=dict(checkpoint_every=2, xyz=3))
+        c["xl_damped5"] = CR.default_cfg(engine="xl_damped", k=5, steps=7, seed=4, out=dict(checkpoint_every=2, xyz=3))
+        c["ksa_damped"] = CR.default_cfg(engine="ksa_damped", k=4, steps=5, seed=6, mols=["H2O"], damp=5.0, out=dict(checkpoint_every=2))
         c["excited"] = CR.default_cfg(
             engine="bomd", mols=["H2CO"], excited={"n_states": 2, "method": "cis"}, active_state=1, steps=5,
             out=dict(checkpoint_every=2),
